@@ -453,13 +453,26 @@ Definition x_length (st : state) : nat :=
 
 (* the tests "equations < unknowns" as coded:
    simple: per system (vns_equation_count < vl_t_terms - 1);
-   auto:   vn_equations + correlated < x_length + p_length;
+   auto:   (DD90) per system as in simple, then vn_equations + correlated < x_length + p_length;
    trl:    none *)
-Definition count_deficient (st : state) : bool :=
+Definition short_system (st : state) : bool :=
   let cf := st_cf st in
+  existsb (fun k => sys_count st k <? unknowns (cf_ty cf) (cf_r cf) (cf_c cf))
+          (seq 0 (systems (cf_ty cf) (cf_c cf))).
+
+(* since DD90 the iterative solver also refuses a system with fewer equations than error terms (per system, first),
+   then makes its test on the totals *)
+Definition count_deficient (st : state) : bool :=
   match solve_path st with
-  | PSimple => existsb (fun k => sys_count st k <? unknowns (cf_ty cf) (cf_r cf) (cf_c cf))
-                       (seq 0 (systems (cf_ty cf) (cf_c cf)))
+  | PSimple => short_system st
+  | PAuto => short_system st || (st_equations st + st_corr st <? x_length st + st_unknown st)
+  | PTrl => false
+  end.
+
+(* the reading of _vnacal_new_solve_auto before DD90: the totals only (model_variant_before_DD90) *)
+Definition count_deficient_before_DD90 (st : state) : bool :=
+  match solve_path st with
+  | PSimple => short_system st
   | PAuto => st_equations st + st_corr st <? x_length st + st_unknown st
   | PTrl => false
   end.
@@ -483,7 +496,8 @@ Definition solve_frequency (o : oracle) (st : state) (f : nat) : bool :=
   | PSimple =>
     forallb (fun k => if sys_count st k <? unk then false else o v f k) (seq 0 ns) && o v f ns
   | PAuto =>
-    if st_equations st + st_corr st <? x_length st + st_unknown st then false else o v f ns
+    if existsb (fun k => sys_count st k <? unk) (seq 0 ns) then false
+    else if st_equations st + st_corr st <? x_length st + st_unknown st then false else o v f ns
   end.
 
 (* the numeric verdict alone (every site the dispatched solver consults at frequency f) *)
